@@ -44,7 +44,7 @@ def run_cases(ctx, cases_path, tag):
             continue
         seen.add(key)
         cp = os.path.join(ctx.work, "confirm_%d.ndjson" % len(os.listdir(ctx.work)))
-        write_ndjson(cp, [dict(id="confirm", t1=r["t1"], t2=r["t2"], t1b=r.get("t1b", []), t2b=r.get("t2b", []), tpl=r["tpl"], facts=r["facts"], dstfact=[])])
+        write_ndjson(cp, [dict(id="confirm", t1=r["t1"], t2=r["t2"], t1b=r.get("t1b", []), t2b=r.get("t2b", []), unit=r.get("unit", []), tpl=r["tpl"], facts=r["facts"], dstfact=[])])
         rp2 = cp.replace(".ndjson", ".res.ndjson")
         ctx.run_vh(["bounds", "--in", cp, "--out", rp2])
         val2 = ctx.validate(rp2, module="Trace_Bounds", shards=1)
@@ -54,7 +54,7 @@ def run_cases(ctx, cases_path, tag):
         r2 = read_ndjson(rp2)[0]
         bad = [s for s in r2["stored"] if not s["ok"]]
         ctx.violation("%s: accepted by AnalyzeAndCheckBounds(ErrorForBoundsMismatch) but %s | %s" % (m["kind"], bad[0]["err"][:200] if bad else r2.get("err", ""), r["text"].replace("\n", " ")),
-                      dict(property="C11", replay_family="bounds", kind=m["kind"], case=dict(id="replay", t1=r["t1"], t2=r["t2"], t1b=r.get("t1b", []), t2b=r.get("t2b", []), tpl=r["tpl"], facts=r["facts"], dstfact=[]), program_text=r["text"], observed=r2["stored"]))
+                      dict(property="C11", replay_family="bounds", kind=m["kind"], case=dict(id="replay", t1=r["t1"], t2=r["t2"], t1b=r.get("t1b", []), t2b=r.get("t2b", []), unit=r.get("unit", []), tpl=r["tpl"], facts=r["facts"], dstfact=[]), program_text=r["text"], observed=r2["stored"]))
     if ctx.notes.get("unreproduced") and not ctx.violations:
         raise InfraError("bounds mismatch did not reproduce: %s" % ctx.notes["unreproduced"][:1])
     drift = 0
@@ -90,6 +90,14 @@ def check_c11(ctx):
     n2 = evalfam.sample_file(allp2, runp2, 25000 if quick else None, rnd)
     ctx.notes["generators"].update(row_programs=g2["cases"], row_programs_executed=n2)
     res.update(run_cases(ctx, runp2, "rows"))
+    # undeclared predicates in a recursion cycle (types inferred while the cycle is visited), unit clause + wider later clause,
+    # a declared consumer; every shape with both lexical name orders (the inference visits predicates by name)
+    allp3 = os.path.join(ctx.work, "recur_all.ndjson")
+    g3 = ctx.gen_cases("BoundsGen", "BoundsGen_recur.cfg", allp3, workers=8, idprefix="c-")
+    runp3 = os.path.join(ctx.work, "recur.ndjson")
+    n3 = evalfam.sample_file(allp3, runp3, 8000 if quick else None, rnd)
+    ctx.notes["generators"].update(recursive_programs=g3["cases"], recursive_programs_executed=n3)
+    res.update(run_cases(ctx, runp3, "recur"))
     k = 0
     for r in res.values():
         if r["outcome"] == "ok" and any(s["pred"] == "dst" for s in r["stored"]):
@@ -100,7 +108,7 @@ def check_c11(ctx):
     ctx.assumptions += ["the judge is the library's own run-time check builtin.TypeChecker.CheckTypeBounds on every stored fact of a declared predicate; Types!Member is compared as drift only",
                         "the inference algorithm itself is not modelled, only its soundness contract (accepted => every stored fact within its declared bounds)"]
     return ctx.finish("model_checking",
-                      "programs generated by TLC (BoundsGen): 14 source bounds x 19 destination bounds x 13 rule templates (copy, construct pair/list/map, destructure pair/list/struct, join, compute, convert) x base facts over a 20-constant witness universe, plus the multi-row family (two bound rows per predicate x 7 templates in which a wide premise and the multi-row premise refine the same variable in either order) "
+                      "programs generated by TLC (BoundsGen): 14 source bounds x 19 destination bounds x 13 rule templates (copy, construct pair/list/map, destructure pair/list/struct, join, compute, convert) x base facts over a 20-constant witness universe, plus the multi-row family (two bound rows per predicate x 7 templates in which a wide premise and the multi-row premise refine the same variable in either order) and the recursive family (undeclared mutually / self / 3-cycle recursive predicates with a unit clause and a wider later clause, both name orders) "
                       "(admitted and not admitted by the bound); each goes through AnalyzeAndCheckBounds(ErrorForBoundsMismatch), accepted ones are evaluated and every stored fact is checked by CheckTypeBounds; "
                       "non-trivial = accepted program that derives a dst fact; distinct by program text")
 
